@@ -1018,11 +1018,17 @@ def flatten(x:Tensor, start_dim:int=0, end_dim:int=-1) -> 'Tensor':
         raise TypeError(f"Expected x to be a Tensor but got {type(x)}")
     
     shape = x.shape
-    start = start_dim if start_dim != -1 else len(shape)
-    end = end_dim if end_dim != -1 else len(shape)
+    n_dims = x.ndim if x.ndim > 0 else 1
+    for d in (start_dim, end_dim):
+        if not (-n_dims <= d < n_dims):
+            raise IndexError(f"Dimension out of range (expected to be in range of [{-n_dims}, {n_dims - 1}], but got {d})")
+    start = start_dim + n_dims if start_dim < 0 else start_dim
+    end = end_dim + n_dims if end_dim < 0 else end_dim
     if start > end:
         raise RuntimeError("flatten() has invalid args: start_dim cannot come after end_dim")
-    if start < end:
+    if x.ndim == 0:
+        shape = (1,)
+    elif start < end:
         shape = shape[:start] + (-1,) + shape[end+1:]
     
     if x.device == Device.CPU:
